@@ -45,7 +45,7 @@ Qed.
 Section Count.
 Variables (C : circuit) (n : nat) (st : tstate).
 Let N := Z.of_nat n.
-Hypothesis HWF : WF C n.
+Hypothesis HWF : CWF C n.
 Hypothesis Hreach : all_reachable C = true.
 Hypothesis Hn : (2 <= n)%nat.
 Hypothesis Hrun : run (length C) C (init_state n) = Done st.
@@ -109,10 +109,14 @@ Proof.
         fold F. now rewrite sat_canon.
 Qed.
 
-Theorem final_count : Z.of_nat (length (cnf_models F)) = root_count C.
+Theorem final_count_models : Z.of_nat (length (cnf_models F)) = MC C n.
 Proof.
-  rewrite (count_is_MC C n HWF). unfold MC. f_equal.
+  unfold MC. f_equal.
   rewrite <- (Permutation_length final_projection). now rewrite map_length.
 Qed.
+
+(* the cached count: this is where the d-DNNF properties (the full C01 bundle) are needed *)
+Theorem final_count : WF C n -> Z.of_nat (length (cnf_models F)) = root_count C.
+Proof. intros HW. rewrite (count_is_MC C n HW). exact final_count_models. Qed.
 
 End Count.
